@@ -184,37 +184,46 @@ class _Quadrature(torch.autograd.Function):
             grad_xu = torch.dot(grad_ys.reshape(-1), fcn(xu, *params).reshape(-1)
                                 ).reshape(xu.shape) if ctx.xutensor else None
 
-            def new_fcn(x, *grad_y_params):
-                grad_ys = grad_y_params[0]
-                # not setting objparams and params because the params and objparams
-                # are still the same objects as the objects outside
-                with torch.enable_grad():
-                    f = fcn(x, *params)
-                if not f.requires_grad:
-                    # none of the differentiable tensors enters the integrand
-                    return tuple(torch.zeros_like(p) for p in tensor_params)
-                dfdts = torch.autograd.grad(f, tensor_params,
-                                            grad_outputs=grad_ys,
-                                            retain_graph=True,
-                                            create_graph=torch.is_grad_enabled(),
-                                            allow_unused=True)
-                # tensors that do not enter the integrand get a zero gradient
-                dfdts = tuple(torch.zeros_like(p) if g is None else g
-                              for (g, p) in zip(dfdts, tensor_params))
-                return dfdts
+        # the tensors are differentiated through their copies so that each of them
+        # only receives its own partial derivative (they can be functions of each
+        # other or the same tensor), therefore the copies need to be put in the
+        # function and its object (that is a state change)
+        def new_fcn(x, *grad_y_params):
+            grad_ys = grad_y_params[0]
+            tensor_params_copy = grad_y_params[1:]
+            allparams_copy = ctx.param_sep.reconstruct_params(tensor_params_copy)
+            with torch.enable_grad():
+                with fcn.useobjparams(allparams_copy[nparams:]):
+                    f = fcn(x, *allparams_copy[:nparams])
+            if not f.requires_grad:
+                # none of the differentiable tensors enters the integrand
+                return tuple(torch.zeros_like(p) for p in tensor_params_copy)
+            dfdts = torch.autograd.grad(f, tensor_params_copy,
+                                        grad_outputs=grad_ys,
+                                        retain_graph=True,
+                                        create_graph=torch.is_grad_enabled(),
+                                        allow_unused=True)
+            # tensors that do not enter the integrand get a zero gradient
+            dfdts = tuple(torch.zeros_like(p) if g is None else g
+                          for (g, p) in zip(dfdts, tensor_params_copy))
+            return dfdts
 
-            # reconstruct grad_params
-            # listing tensor_params in the params of quad to make sure it gets
-            # the gradient calculated
-            if ntensor_params > 0:
-                dydts = quad(new_fcn, xl, xu, params=(grad_ys, *tensor_params),
-                             bck_options=ctx.bck_config, **ctx.bck_config)
+        # reconstruct grad_params
+        # listing the tensor params in the params of quad to make sure it gets
+        # the gradient calculated
+        if ntensor_params > 0:
+            if torch.is_grad_enabled():
+                tensor_params_copy = [p.clone().requires_grad_() for p in tensor_params]
             else:
-                dydts = ()
-            dydns = [None for _ in range(ctx.param_sep.nnontensors())]
-            grad_params = ctx.param_sep.reconstruct_params(dydts, dydns)
+                tensor_params_copy = [p.detach().requires_grad_() for p in tensor_params]
+            dydts = quad(new_fcn, xl, xu, params=(grad_ys, *tensor_params_copy),
+                         bck_options=ctx.bck_config, **ctx.bck_config)
+        else:
+            dydts = ()
+        dydns = [None for _ in range(ctx.param_sep.nnontensors())]
+        grad_params = ctx.param_sep.reconstruct_params(dydts, dydns)
 
-            return (None, grad_xl, grad_xu, None, None, None, None, None, *grad_params)
+        return (None, grad_xl, grad_xu, None, None, None, None, None, *grad_params)
 
 def _isinf(x):
     return torch.any(torch.isinf(x))
